@@ -19,6 +19,7 @@ def check(ctx):
                       "are ordered by the same index")
     ctx.guard(r101, ctx)
     ctx.guard(r102, ctx)
+    ctx.guard(r102_delegation, ctx)
     ctx.guard(r103, ctx)
     ctx.guard(_shared_c10, ctx)
 
@@ -165,6 +166,19 @@ def r102(ctx):
                construct=f"{what}: randomness sources")
         args_ok = all(arg(e, 0) is r.params["X"] for e in calls_to(r, cls + "._pmf_predict"))
         ctx.ob("R10.2", r.func, None, args_ok, "the pmf is evaluated on the query X", construct=f"{what}: pmf argument")
+
+
+def r102_delegation(ctx):
+    """ThresholdOptimizer.predict / _pmf_predict hand X, sensitive_features and the caller's random_state to the thresholder."""
+    TO = M_TO + ":ThresholdOptimizer"
+    A1 = Analysis(ctx, max_depth=1, inline=lambda f_, d_: False)
+    for m, kws in (("predict", ("sensitive_features", "random_state")), ("_pmf_predict", ("sensitive_features",))):
+        rp = A1.run(TO + "." + m, cls_ctx=TO)
+        want = A1.entry(rp, f"self.interpolated_thresholder_.{m}(X, " + ", ".join(f"{k}={k}" for k in kws) + ")")
+        okp = rp.ret is want
+        ctx.ob("R10.2", rp.func, None, okp, f"ThresholdOptimizer.{m} delegates with X, " + ", ".join(kws) + " passed through" if okp else
+               f"ThresholdOptimizer.{m} returns {show(rp.ret, maxdepth=4)[:120] if rp.ret is not None else '?'}: an argument (the seed) "
+               "is not passed on, so predictions are not reproducible for a fixed random_state", construct=f"ThresholdOptimizer.{m} delegation")
 
 
 def r103(ctx):
